@@ -175,7 +175,8 @@ theorem C15_prune_deleted_subs (db : Db) (now : Time) (minAge : Int) (mx : Nat) 
 
 theorem C15_prune_deleted_topics (db : Db) (now : Time) (minAge : Int) (mx : Nat) (victims : List Id) (o : TxOut Nat)
     (h : pruneDeletedTopics db now minAge mx victims = .ok o) :
-    (∀ v ∈ victims, ∃ t d, db.topicById v = some t ∧ t.deletedAt = some d ∧ (∀ s ∈ db.subs, s.topicId ≠ t.id)) ∧
+    (∀ v ∈ victims, ∃ t d, db.topicById v = some t ∧ t.deletedAt = some d ∧ (∀ s ∈ db.subs, s.topicId ≠ t.id) ∧
+      (∀ s ∈ db.subs, s.dlTopicId ≠ some t.id)) ∧
     o.db.dels = db.dels ∧ o.db.msgs = db.msgs ∧ o.db.snaps = db.snaps := by
   unfold pruneDeletedTopics at h
   simp only at h
@@ -192,9 +193,45 @@ theorem C15_prune_deleted_topics (db : Db) (now : Time) (minAge : Int) (mx : Nat
       cases hd : t.deletedAt with
       | none => simp [hd] at hp
       | some dd =>
-        refine ⟨t, dd, ht, hd, ?_⟩
-        simp only [hd, Bool.and_eq_true, Bool.not_eq_true', List.any_eq_false, beq_iff_eq] at hp
-        exact fun s hs => hp.2 s hs
+        refine ⟨t, dd, ht, hd, ?_, ?_⟩
+        · simp only [hd, Bool.and_eq_true, Bool.not_eq_true', List.any_eq_false, beq_iff_eq] at hp
+          exact fun s hs => hp.1.2 s hs
+        · simp only [hd, Bool.and_eq_true, Bool.not_eq_true', List.any_eq_false, beq_iff_eq] at hp
+          exact fun s hs => hp.2 s hs
+
+/-- **C15 (pruning a deleted topic leaves every subscription's configuration alone)**: no victim is any
+    subscription's dead-letter topic, so the `ON DELETE SET NULL` of that reference never fires: the
+    subscriptions table after the job is the one before it. -/
+theorem C15_prune_deleted_topics_keeps_policies (db : Db) (now : Time) (minAge : Int) (mx : Nat) (victims : List Id)
+    (o : TxOut Nat) (h : pruneDeletedTopics db now minAge mx victims = .ok o) : o.db.subs = db.subs := by
+  have hids : ∀ v ∈ victims, ∀ t, db.topicById v = some t → t.id = v := by
+    intro v _ t ht
+    have := List.find?_some ht
+    simpa using this
+  obtain ⟨hv, _, _, _⟩ := C15_prune_deleted_topics db now minAge mx victims o h
+  unfold pruneDeletedTopics at h
+  simp only at h
+  split at h
+  · cases h
+  · split at h
+    · cases h
+    · injection h with h; subst h
+      show db.subs.map _ = db.subs
+      conv => rhs; rw [← List.map_id db.subs]
+      apply List.map_congr_left
+      intro s hs
+      cases hdl : s.dlTopicId with
+      | none => simp [hdl]
+      | some d =>
+        simp only [hdl, id_eq]
+        split
+        · rename_i hc
+          exfalso
+          have hmem : d ∈ victims := by simpa using hc
+          obtain ⟨t, dd, ht, _, _, hno⟩ := hv d hmem
+          have := hids d hmem t ht
+          exact hno s hs (by rw [hdl, this])
+        · rfl
 
 /-- **C15 (progress)**: whenever a job's candidate set is non-empty, every allowed observation
     deletes at least one row (`LIMIT max` with `max ≥ 1` returns `min max |candidates| ≥ 1` ids). -/
